@@ -350,7 +350,15 @@ def invalid_families():
         '<dtml-if x expr="y">a</dtml-if>', '<dtml-in x name=y>a</dtml-in>',
         '<dtml-if a>1<dtml-elif b expr="c">2</dtml-if>',
         '<dtml-with x expr="y">a</dtml-with>',
-        '<dtml-raise KeyError expr="ValueError">m</dtml-raise>')
+        '<dtml-raise KeyError expr="ValueError">m</dtml-raise>',
+        # a name that is given but empty is still a name
+        '<dtml-var name="" expr="y">', '<dtml-if name="" expr="y">a</dtml-if>',
+        '<dtml-in name="" expr="y">a</dtml-in>',
+        '<dtml-raise type="" expr="ValueError">m</dtml-raise>',
+        '<dtml-call expr="y" name="">', '<dtml-var expr="y" name>',
+        '<dtml-with expr="y" name="">a</dtml-with>',
+        '<dtml-unless name="" expr="y">a</dtml-unless>',
+        '<dtml-return name="" expr="y">')
     add('batch-option-without-batch', '<dtml-in s orphan=1>a</dtml-in>',
         '<dtml-in s overlap=1>a</dtml-in>', '<dtml-in s previous>a</dtml-in>',
         '<dtml-in s next>a</dtml-in>',
@@ -367,6 +375,20 @@ def invalid_families():
         '<dtml-let x>a</dtml-let>', '<dtml-let x= y>a</dtml-let>',
         '<dtml-var x "y">', '<dtml-in s "t">a</dtml-in>')
     return f
+
+
+# bodies in which an invalid construct stays invalid: blocks without
+# continuation tags, and a comment (whose body is compiled like any other)
+WRAPPERS = ['<dtml-comment>%s</dtml-comment>', '<dtml-with o>%s</dtml-with>',
+            'a<dtml-unless u>b%sc</dtml-unless>',
+            '<dtml-let a=b><dtml-comment>%s</dtml-comment></dtml-let>',
+            '<dtml-in s>\n<dtml-comment>\n%s\n</dtml-comment></dtml-in>']
+
+
+def wrapped_invalid_families():
+    for rule, src in invalid_families():
+        for k, w in enumerate(WRAPPERS):
+            yield rule + ':in-body', w % src
 
 
 def valid_families():
@@ -556,7 +578,8 @@ def run_shard(shard):
         # in the same process: acceptance must not depend on that history
         def run_invalid(after):
             suffix = ':after-valid-templates' if after else ''
-            for rule, src in invalid_families():
+            for rule, src in invalid_families() + list(
+                    wrapped_invalid_families()):
                 for sx in ('dtml', 'ssi', 'epfs'):
                     s2 = translate(src, sx)
                     v, d = check_source(s2, sx)
